@@ -671,6 +671,9 @@ func (me *MemberExpression) WriteTo(cw *CodeWriter) {
 		me.Property.WriteTo(cw)
 		cw.WriteRune(']')
 	} else {
+		if _, isInt := me.Object.(*IntegerLiteral); isInt {
+			cw.WriteRune(' ') // "1.x" would be read as the number "1." followed by x
+		}
 		cw.AddMapping(me.Token.Start)
 		cw.WriteRune('.')
 		me.Property.WriteTo(cw)
